@@ -176,6 +176,30 @@ CLAIMS = {
               "as a multiset, caching off and on, evaluated twice."),
         design='7/C11', technique='Coq proof (instances of the partition/counting invariant for selected expressions + binding lemmas by induction over terms and argument lists) + correspondence on constructed field tuples',
         note=BASE_NOTE + " Nested constructor terms WITHOUT a domain inside a head are registry look-ups in the implementation (C14) and are not generated; nested terms with a domain are variables (C13). The registry side effect of inference is C14's. One defect was repaired in /repo (arguments combined by Cartesian product)."),
+    'C04': dict(
+        text=("Machine-checked over the lazy-domain model (a line-by-line model of HashedIterable: memoised prefix + unconsumed remainder, "
+              "evaluation as a process that records the domain state at the moment each row is delivered): C04_history_independent (one "
+              "variable, any pool of queries, ANY finite history of full evaluations, take-k-then-close and evaluations aborted at the "
+              "j-th predicate call: a query evaluated afterwards returns exactly the rows, in order, it returns on the untouched domain), "
+              "C04_content_invariant (a history only moves a prefix of the remainder into the memo), C04_repeated_object (a domain listing "
+              "an object several times yields it once, first time and later), C04_any_advance (several variables, any condition tree "
+              "incl. for_all and sub-queries: however far each lazily consumed domain was advanced, the P-model evaluator returns the same "
+              "rows). Tie: generated histories over pools of queries sharing variables and expression objects - one-variable pools over a "
+              "logging one-shot iterator compared EXACTLY after every step (rows, pulled, memoised), multi-variable pools (projections, "
+              "shared sub-expressions in other positions, rule inference) compared step by step with the answers on untouched data, "
+              "caching off and on; user data checked unmodified."),
+        design='7/C04', technique='Coq proof (invariant over operation histories on the lazy-domain model; extensionality of the evaluator in the domains) + step-wise correspondence on histories',
+        note=BASE_NOTE + " PARTIAL in one respect, stated plainly: the per-node de-duplication sets and the operator result caches are NOT state of the proved model - that they are reset / cleared by every evaluation however it ends (An.evaluate / The.evaluate `finally`) is covered by the history correspondence and by C05, not by a theorem; how far a PARTIAL multi-variable evaluation advances each domain is not modelled (C04_any_advance quantifies over every advance). Three defects were repaired in /repo (reset in finally, concluded_before, repeated domain objects)."),
+    'C07': dict(
+        text=("Machine-checked over the lazy-domain model: C07_nothing_before_first_request (creating the result iterator pulls nothing), "
+              "C07_exact_prefix (for every qualification predicate - every condition tree and dataset -, every one-shot domain of distinct "
+              "objects and every k: when the k-th result is delivered exactly the prefix ending at the k-th qualifying element has been "
+              "pulled), C07_take_is_prefix, C07_never_pulled_twice / C07_pulls_monotone (after ANY history of partial, aborted and full "
+              "evaluations the iterator's remainder is a suffix of what was supplied and only shrinks). Tie: the domain is a logging "
+              "one-shot iterator; after EVERY step of generated histories the number of elements pulled and memoised and the rows "
+              "delivered are compared with the model; declaring the variable and building the queries must pull nothing."),
+        design='7/C07', technique='Coq proof (induction over the domain and over operation histories on the lazy-domain model) + step-wise correspondence on a logging one-shot iterator',
+        note=BASE_NOTE + " That a single-variable condition tree is evaluated once per delivered element (the left-most leaf enumerates the domain, every other leaf sees the variable bound) is C01's evaluator theorem plus this correspondence; time-to-first-result as wall-clock time is not modelled (pull counts are). The predicate-form type filter (lazy `filter(isinstance)`) is exercised because every domain goes through let()."),
 }
 
 NOT_YET = {}
